@@ -44,6 +44,9 @@ type TimedOpts struct {
 	Silent     []int         // identities that are down from the start and never come back
 	Plan       []Sched
 	InitialTxs int // transactions in every pool at start
+	// TxLag: the initial transactions have reached only a drawn part of the pools; a node that is asked for one it
+	// lacks is handed it (OnTransaction) within one latency of the request - transaction gossip in a fault-free network
+	TxLag bool
 	// SlowApp: identities whose application takes up to SlowLag to call Reset after a block.
 	SlowApp map[int]bool
 	SlowLag time.Duration
@@ -63,6 +66,7 @@ type Timed struct {
 	Done         bool
 	HealView     int
 	horizonSet   bool
+	supplying    map[*Node]map[vt.H]bool
 	sentSeen     int
 	proposals    int
 	lastProposal time.Duration
@@ -82,7 +86,7 @@ type tEvent struct {
 }
 
 func RunTimed(w *World, o TimedOpts) *Timed {
-	t := &Timed{W: w, O: o, resetAt: map[*Node]time.Time{}, nextSync: map[*Node]time.Time{}}
+	t := &Timed{W: w, O: o, resetAt: map[*Node]time.Time{}, nextSync: map[*Node]time.Time{}, supplying: map[*Node]map[vt.H]bool{}}
 	w.Timed = true
 	w.MaxLat = o.MaxLat
 	silent := map[int]bool{}
@@ -91,8 +95,12 @@ func RunTimed(w *World, o TimedOpts) *Timed {
 	}
 	for i := 0; i < o.InitialTxs; i++ {
 		tx := w.NewTx(false)
+		mask := -1
+		if o.TxLag {
+			mask = 1 + t.r("txlagmask", 255)
+		}
 		for _, n := range w.Nodes {
-			if n != nil {
+			if n != nil && mask&(1<<uint(n.ID%8)) != 0 {
 				n.AddTx(tx)
 			}
 		}
@@ -114,7 +122,7 @@ func RunTimed(w *World, o TimedOpts) *Timed {
 		t.afterCall(n)
 	}
 	for _, s := range o.Plan {
-		if s.Kind != "tx" && s.At > t.LastFault {
+		if s.Kind != "tx" && s.Kind != "supply" && s.At > t.LastFault {
 			t.LastFault = s.At
 		}
 	}
@@ -222,6 +230,18 @@ func (t *Timed) afterCall(n *Node) {
 			}
 		}
 	}
+	if t.O.TxLag { // whatever the node has asked its application for arrives within one latency
+		for _, h := range Wanted(n) {
+			if t.supplying[n] == nil {
+				t.supplying[n] = map[vt.H]bool{}
+			}
+			if tx, ok := t.W.TxByHash(h); ok && !t.supplying[n][h] {
+				t.supplying[n][h] = true
+				at := t.W.Clock.Sub(t.W.Cfg.Epoch) + time.Duration(t.r("supplylat", 21))*t.O.MaxLat/20
+				t.O.Plan = append(t.O.Plan, Sched{At: at, Kind: "supply", Node: n.ID, Tx: tx})
+			}
+		}
+	}
 	if bc := n.Broadcasts(); bc != n.bcSeen {
 		for c := n.bcSeen + 1; c <= bc; c++ {
 			t.trigger("after-broadcast", n, c)
@@ -248,7 +268,7 @@ func (t *Timed) maybeSetHorizon() {
 		return
 	}
 	for _, s := range t.O.Plan {
-		if s.Kind != "tx" && !s.done && s.Trig == "" {
+		if s.Kind != "tx" && s.Kind != "supply" && !s.done && s.Trig == "" {
 			return
 		}
 	}
@@ -438,6 +458,19 @@ func (t *Timed) step() bool {
 				w.Stat("restart")
 				w.Restart(n)
 				t.afterCall(n)
+			}
+		case "supply":
+			if n := w.Nodes[s.Node]; n != nil && !n.Crashed {
+				h := s.Tx.Hash()
+				delete(t.supplying[n], h)
+				if _, still := n.Want[h]; still {
+					delete(n.Want, h)
+					n.AddTx(s.Tx)
+					w.Stat("supply_tx")
+					w.act("supplyTx(%d) %x", n.ID, uint64(s.Tx))
+					n.Transaction(s.Tx)
+					t.afterCall(n)
+				}
 			}
 		case "tx":
 			w.Universe = append(w.Universe, s.Tx)
